@@ -110,7 +110,7 @@ def main():
             "--exclude=work/C*", "--exclude=seeded", ROOT + "/", verif + "/"])
         gm = os.path.join(verif, "harness", "go.mod")
         open(gm, "w").write(open(gm).read().replace("=> /repo", "=> " + repo))
-        env = dict(ENV, VERIF_REPO=repo, VERIF_NO_EVIDENCE="1")
+        env = dict(ENV, VERIF_REPO=repo, VERIF_NO_EVIDENCE="1", VERIF_NO_SEARCH="1")
         while True:
             try:
                 (f, idx, line, desc), ps = jobs.get_nowait()
